@@ -132,7 +132,7 @@ def run_one(ctx, src, scopes, config, keep, workdir, cli=False):
         regions, _ = carts.random_regions(ctx.rng, 'zero')
         p1 = os.path.join(workdir, ambient.BASE[0] + '.p8')
         with open(p1, 'wb') as fh:
-            fh.write(rc.write_p8(regions, src, version=8))
+            fh.write(rc.write_p8(regions, src, version=ambient.VERSION[0]))
         argv = [ambient.vflag(), 'luamin'] + (['--keep-all-names'] if config.startswith('keep_all') else []) + (
             ['--keep-names-from-file', keep_file] if 'keep_file' in config else [])
         # several carts on one command line: every output must satisfy the property on its own
@@ -141,7 +141,7 @@ def run_one(ctx, src, scopes, config, keep, workdir, cli=False):
         if prev_src is not None:
             p0 = os.path.join(workdir, ambient.BASE[0] + '-0.p8')
             with open(p0, 'wb') as fh:
-                fh.write(rc.write_p8(regions, prev_src, version=8))
+                fh.write(rc.write_p8(regions, prev_src, version=ambient.VERSION[0]))
             extra_paths = [p0]
             ctx.feature('cli_two_carts_one_invocation')
         ctx.extra['_prev_cli_src'] = src
@@ -207,7 +207,7 @@ def run_reuse(spec, ctx, workdir):
         case = {'src': src, 'config': config, 'keep': keep, 'history': 'reused writer args, step %d' % step}
         ctx.case((src, 'reuse', step, tuple(keep)), nontrivial=len(names) >= 3)
         try:
-            L = lua.Lua.from_lines([src], version=8)
+            L = lua.Lua.from_lines([src], version=ambient.VERSION[0])
             out = b''.join(L.to_lines(writer_cls=lua.LuaMinifyTokenWriter, writer_args=args))
         except Exception as e:
             ctx.violation('luamin raised %r (reused writer args)' % (e,), case)
@@ -315,7 +315,7 @@ def run_shard(spec, ctx):
                     try:
                         from pico8.lua import lua as _lua
                         if src is not None:
-                            _lua.Lua.from_lines([src], version=8)
+                            _lua.Lua.from_lines([src], version=ambient.VERSION[0])
                             ctx.feature('labels_with_inner_blanks')
                     except Exception:
                         # this tree does not accept the spaced form here (e.g. inside a block): use the tight form
